@@ -70,8 +70,8 @@ def run_tlc(module: str, cfg: str | None = None, env: dict | None = None, worker
     return res
 
 
-_VERDICT = re.compile(r'<<"VERDICT", (\d+), (\{.*?\})>>', re.S)
-_PAIR = re.compile(r'<<"([^"]+)", (\d+)>>')
+_VERDICT = re.compile(r'^"?VERDICT\|(\d+)\|(\{.*\})"?\s*$', re.M)
+_PAIR = re.compile(r'<<\\?"([^"\\]+)\\?", (\d+)>>')
 
 
 def parse_verdicts(stdout: str) -> dict[int, list[tuple[str, int]]]:
